@@ -30,9 +30,22 @@ pub fn json_line(l: &str) -> String {
     }
 }
 
+/// deterministic stand-in for an exchange-rate source: a fixed rate per currency code
+struct FixedRates;
+impl fend_core::ExchangeRateFn for FixedRates {
+    fn relative_to_base_currency(&self, currency: &str) -> Result<f64, Box<dyn std::error::Error + Send + Sync + 'static>> {
+        Ok(match currency {
+            "EUR" => 1.0,
+            "USD" => 1.25,
+            _ => 0.5 + f64::from(currency.bytes().map(u32::from).sum::<u32>() % 16) / 4.0,
+        })
+    }
+}
+
 fn ctx() -> Context {
     let mut c = Context::new();
     c.set_random_u32_fn(|| 4);
+    c.set_exchange_rate_handler_v1(FixedRates);
     c
 }
 
@@ -192,6 +205,32 @@ pub fn roll_line(l: &str) -> String {
     ROLL_VALUE.store(r, std::sync::atomic::Ordering::SeqCst);
     let mut c = fend_core::Context::new();
     c.set_random_u32_fn(fixed_rng);
+    let int = Counting::never();
+    match guarded(|| fend_core::evaluate_with_interrupt(src, &mut c, &int)) {
+        Ok(Ok(v)) => format!("ok {}", v.get_main_result().replace('\n', "\\n")),
+        Ok(Err(e)) => format!("err {}", e.replace('\n', "\\n")),
+        Err(p) => format!("panic {}", p.replace('\n', "\\n")),
+    }
+}
+
+/// Stream `unitq`: `cf=<0|1> custom=<0|1> <expression…>` — evaluates the expression in a context with the given
+/// coulomb/farad mode and (optionally) the fixed custom-unit list that the driver's `unitlookup` stream also uses.
+pub fn unitq_line(l: &str) -> String {
+    let mut it = l.trim().splitn(3, ' ');
+    let (Some(cf), Some(cu), Some(src)) = (it.next(), it.next(), it.next()) else { return "bad-op".into() };
+    let mut c = ctx();
+    if cf == "cf=1" {
+        c.use_coulomb_and_farad();
+    }
+    if cu == "custom=1" {
+        use fend_core::CustomUnitAttribute as A;
+        c.define_custom_unit_v1("florp", "florps", "3 kg", &A::None);
+        c.define_custom_unit_v1("zib", "zibs", "!", &A::AllowLongPrefix);
+        c.define_custom_unit_v1("smoot", "smoots", "67 inches", &A::AllowShortPrefix);
+        c.define_custom_unit_v1("mile", "miles", "1852 m", &A::AllowLongPrefix);
+        c.define_custom_unit_v1("hugo", "", "1000", &A::IsLongPrefix);
+        c.define_custom_unit_v1("byteish", "", "8 bits", &A::Alias);
+    }
     let int = Counting::never();
     match guarded(|| fend_core::evaluate_with_interrupt(src, &mut c, &int)) {
         Ok(Ok(v)) => format!("ok {}", v.get_main_result().replace('\n', "\\n")),
